@@ -18,12 +18,12 @@ pub struct Puppet<T: 'static> {
     sinks: Arc<Mutex<Vec<Arc<Sink<T>>>>>,
     /// what to do when a Pull arrives: Some(f) is called synchronously
     pub on_pull: Arc<Mutex<Option<Box<dyn Fn(&Puppet<T>) + Send + Sync>>>>,
-    pub greet_sync: bool,
+    pub greet_sync: std::sync::atomic::AtomicBool,
 }
 
 impl<T: Send + Sync + 'static> Puppet<T> {
     pub fn new(name: &'static str, log: &Log, greet_sync: bool) -> Arc<Self> {
-        Arc::new(Puppet { name, log: Arc::clone(log), sinks: Default::default(), on_pull: Default::default(), greet_sync })
+        Arc::new(Puppet { name, log: Arc::clone(log), sinks: Default::default(), on_pull: Default::default(), greet_sync: std::sync::atomic::AtomicBool::new(greet_sync) })
     }
     pub fn source(self: &Arc<Self>) -> Source<T> {
         let me = Arc::clone(self);
@@ -35,12 +35,15 @@ impl<T: Send + Sync + 'static> Puppet<T> {
                     s.len()
                 };
                 me.log.lock().unwrap().push(if n == 1 { format!("{}<-subscribe", me.name) } else { format!("{}<-subscribe#{}", me.name, n) });
-                if me.greet_sync {
+                if me.greet_sync.load(std::sync::atomic::Ordering::SeqCst) {
                     me.greet_nth(n - 1);
                 }
             }
         })
         .into()
+    }
+    pub fn set_greet_sync(&self, v: bool) {
+        self.greet_sync.store(v, std::sync::atomic::Ordering::SeqCst);
     }
     pub fn greet(self: &Arc<Self>) {
         let n = self.sinks.lock().unwrap().len();
